@@ -21,7 +21,10 @@ class CliRun:
         return oracle.parse_humanized(self.stdout)
 
 
-def run_cli(args, cwd=None, timeout=120, trace=True, env_extra=None, stdin=None):
+def run_cli(args, cwd=None, timeout=120, trace=True, env_extra=None, stdin=None, tty=()):
+    """tty: which of "stdin", "stdout", "stderr" are terminals (pseudo-terminals) instead of pipes"""
+    if tty:
+        return _run_cli_tty(args, cwd, timeout, env_extra, tty)
     env = dict(os.environ)
     env["PYTHONPATH"] = os.path.join(ROOT, "nv", "site") + ":" + REPO + ":" + ROOT
     env["PYTHONDONTWRITEBYTECODE"] = "1"
@@ -69,4 +72,73 @@ def run_cli(args, cwd=None, timeout=120, trace=True, env_extra=None, stdin=None)
             os.unlink(tf)
         except OSError:
             pass
+    return r
+
+
+def _run_cli_tty(args, cwd, timeout, env_extra, tty):
+    """the command line with some of its standard streams attached to pseudo-terminals; the streams that are not
+    terminals are pipes as usual.  No child-side trace (the observation is the text and the exit status)."""
+    import pty
+    import threading
+    env = dict(os.environ)
+    env["PYTHONPATH"] = REPO + ":" + ROOT
+    env["PYTHONDONTWRITEBYTECODE"] = "1"
+    env["PYTHONHASHSEED"] = "0"
+    env["TERM"] = "xterm"
+    env.pop("NV_TRACE", None)
+    env["NORMINETTE_VERIF"] = "1"
+    if env_extra:
+        env.update(env_extra)
+    r = CliRun()
+    r.argv = list(args)
+    r.cwd = cwd
+    r.trace = None
+    r.timeout = False
+    masters = {}
+    fds = {}
+    for name in ("stdin", "stdout", "stderr"):
+        if name in tty:
+            m, sl = pty.openpty()
+            masters[name] = m
+            fds[name] = sl
+    chunks = {"stdout": [], "stderr": []}
+
+    def drain(fd, key):
+        while True:
+            try:
+                b = os.read(fd, 65536)
+            except OSError:
+                break
+            if not b:
+                break
+            chunks[key].append(b)
+    p = subprocess.Popen([PY, "-X", "dev", "-m", "norminette"] + list(args), cwd=cwd, env=env,
+                         stdin=fds.get("stdin", subprocess.DEVNULL), stdout=fds.get("stdout", subprocess.PIPE),
+                         stderr=fds.get("stderr", subprocess.PIPE), close_fds=True)
+    threads = []
+    for key in ("stdout", "stderr"):
+        fd = masters.get(key)
+        if fd is None:
+            fd = (p.stdout if key == "stdout" else p.stderr).fileno()
+        t = threading.Thread(target=drain, args=(fd, key), daemon=True)
+        t.start()
+        threads.append(t)
+    try:
+        r.rc = p.wait(timeout=timeout)
+    except subprocess.TimeoutExpired:
+        p.kill()
+        p.wait()
+        r.rc = None
+        r.timeout = True
+    for sl in fds.values():
+        os.close(sl)
+    for t in threads:
+        t.join(5)
+    for m in masters.values():
+        try:
+            os.close(m)
+        except OSError:
+            pass
+    r.stdout = b"".join(chunks["stdout"]).decode("utf-8", "replace").replace("\r\n", "\n")
+    r.stderr = b"".join(chunks["stderr"]).decode("utf-8", "replace").replace("\r\n", "\n")
     return r
